@@ -3,6 +3,9 @@
 #pragma once
 #include <dlfcn.h>
 
+#include <algorithm>
+#include <csetjmp>
+
 #include "alphabet.hpp"
 #include "util.hpp"
 #include "xv_abi.h"
@@ -243,6 +246,10 @@ namespace xv
         std::vector<std::vector<uint64_t>> place_subj; // subject tuples (one value per operand)
         std::vector<std::vector<uint64_t>> place_comp; // companion values per operand
         uint64_t place_nc = 0;
+        int perm_L = 0, perm_mode = 0, perm_es = 0; // C05: lane tags (1), + run-time index vectors (2), + Boolean masks (3)
+        std::vector<std::vector<uint8_t>> perm_index;
+        std::vector<uint64_t> perm_masks;
+        bool perm_fp = false;
         int mask_kind = 0; // Boolean operands generated from 64-bit mask words, one word per 64 stream positions
         uint64_t mask_groups = 0;
         static inline uint64_t rev16(uint64_t x)
@@ -320,6 +327,17 @@ namespace xv
                 ntuples = mask_groups;
                 shifts = 1;
                 stride = mask_groups * 64;
+                return;
+            }
+            if (perm_L)
+            {
+                const uint64_t L = (uint64_t)perm_L;
+                uint64_t nb = perm_mode == 1 ? 2 * L : perm_mode == 2 ? 2 * perm_index.size() : 2 * perm_masks.size();
+                ntuples = nb;
+                shifts = 1;
+                stride = nb * L;
+                uint64_t g = L * L < 64 ? 64 : L * L;
+                stride = (stride + g - 1) / g * g;
                 return;
             }
             if (placement_L)
@@ -430,6 +448,57 @@ namespace xv
             if (witness_L)
             {
                 vals[0] = decode_witness(p);
+                return;
+            }
+            if (perm_L)
+            {
+                const uint64_t L = (uint64_t)perm_L;
+                const uint64_t b = (p / L) % ntuples, lane = p % L;
+                uint64_t a, row, item;
+                if (perm_mode == 1)
+                {
+                    a = (b / L) % 2;
+                    row = b % L;
+                    item = 0;
+                }
+                else
+                {
+                    a = b % 2;
+                    row = (b / 2) % L;
+                    item = b / 2;
+                }
+                for (size_t o = 0; o < al.size(); ++o)
+                {
+                    if (o == 1 && perm_mode == 2)
+                    {
+                        vals[o] = perm_index[item][lane];
+                        continue;
+                    }
+                    if (o == 1 && perm_mode == 3)
+                    {
+                        vals[o] = (perm_masks[item] >> lane) & 1;
+                        continue;
+                    }
+                    // lane tag: every byte of the batch distinct (assignment 0) / signalling-NaN payloads or high-bit patterns (1)
+                    uint64_t v = 0;
+                    for (int j = 0; j < perm_es; ++j)
+                    {
+                        uint64_t byte = (37 * row + 3 * (lane * (uint64_t)perm_es + (uint64_t)j) + 192 * o + 1) & 0xFF;
+                        v |= byte << (8 * j);
+                    }
+                    if (a == 1)
+                    {
+                        if (perm_fp)
+                        {
+                            // exponent all ones, quiet bit clear, payload = lane + 1 (+ row in the next bits), sign = operand
+                            const int mant = perm_es == 4 ? 23 : 52;
+                            v = ((perm_es == 4 ? 0xFFull : 0x7FFull) << mant) | (lane + 1) | (row << 8) | ((uint64_t)o << (perm_es * 8 - 1));
+                        }
+                        else
+                            v = ~v & (perm_es == 8 ? ~0ull : ((1ull << (perm_es * 8)) - 1));
+                    }
+                    vals[o] = v;
+                }
                 return;
             }
             if (placement_L)
@@ -571,6 +640,35 @@ namespace xv
         }
     };
 
+    // assert() inside a kernel: "unsupported arch/op combination" means the library does not accept the
+    // combination (found only at run time); any other failed assertion is a contract violation by the kernel.
+    struct AssertTrap
+    {
+        sigjmp_buf env;
+        bool armed = false;
+        char msg[300];
+    };
+    inline AssertTrap& assert_trap()
+    {
+        static thread_local AssertTrap t;
+        return t;
+    }
+    // runs one array kernel; returns 0 normally, 1 = unsupported combination, 2 = other assertion failure
+    inline int guarded_call(xv_fn fn, const void* const* in, void* const* out, size_t n, xv_ctx* ctx)
+    {
+        AssertTrap& T = assert_trap();
+        int tr = sigsetjmp(T.env, 0);
+        if (tr == 0)
+        {
+            T.armed = true;
+            fn(in, out, n, ctx);
+            T.armed = false;
+            return 0;
+        }
+        T.armed = false;
+        return tr;
+    }
+
     inline bool is_fp_type(int t) { return t == XV_F32 || t == XV_F64; }
     inline bool bits_is_nan(uint64_t b, int t)
     {
@@ -674,6 +772,7 @@ namespace xv
         std::vector<Sample> samples;
         bool exhaustive = true;
         std::vector<std::string> vacuous_ops;
+        std::vector<std::string> rejected_at_run_time; // (op,type,arch) that assert "unsupported arch/op combination"
         std::vector<std::string> saturated; // (op,type,arch) whose comparison was stopped after 4096 unknown failures
     };
 
@@ -708,7 +807,11 @@ namespace xv
                 memset(&ctx, 0, sizeof ctx);
                 ctx.param = O.param;
                 ctx.aborted_at = -1;
-                im.op->fn(use_in, out, n, &ctx);
+                if (int tr = guarded_call(im.op->fn, use_in, out, n, &ctx))
+                {
+                    assert_failed(G, O, ii, tr);
+                    continue;
+                }
                 uint64_t cmp = 0;
                 for (size_t base = 0; base + 2 * L <= n; base += 2 * L)
                 {
@@ -745,6 +848,32 @@ namespace xv
                 O.compared += cmp;
                 O.points += n;
             }
+        }
+        std::mutex rt_mu;
+        std::set<std::string> rejected_at_run_time;
+        void assert_failed(Group& G, OpInst& O, size_t ii, int kind)
+        {
+            Impl& im = O.impls[ii];
+            O.saturated[ii] = 1; // no further calls of this (operation, architecture)
+            const std::string key = O.name + "|" + xv_type_name[G.sig.elem] + "|" + mods[(size_t)im.module].arch;
+            if (kind == 1)
+            {
+                std::lock_guard<std::mutex> g(rt_mu);
+                rejected_at_run_time.insert(key);
+                return;
+            }
+            ++O.vc[ii * O.nslots + 0];
+            Violation v;
+            v.prop = O.prop;
+            v.op = O.name;
+            v.arch = mods[(size_t)im.module].arch;
+            v.oracle = "assertion inside the kernel";
+            v.note = std::string("assertion failed: ") + assert_trap().msg;
+            v.elem = G.sig.elem;
+            v.lanes = im.op->lanes;
+            v.out_type = G.sig.out_t[0];
+            v.param = O.param;
+            log.add_detailed(std::move(v));
         }
         void report_placement(Group& G, OpInst& O, size_t ii, const void* const* use_in, size_t b0, size_t lane, int o, uint64_t expected, uint64_t observed, const char* why)
         {
@@ -897,7 +1026,11 @@ namespace xv
                     memset(&ctx, 0, sizeof ctx);
                     ctx.param = O.param;
                     ctx.aborted_at = -1;
-                    im.op->fn(use_in, out, n, &ctx);
+                    if (int tr = guarded_call(im.op->fn, use_in, out, n, &ctx))
+                    {
+                        assert_failed(G, O, ii, tr);
+                        continue;
+                    }
                     uint64_t cmp = 0;
                     for (int o = 0; o < sig.nout; ++o)
                     {
@@ -1087,6 +1220,12 @@ namespace xv
                 if (kv.second <= 1 && R.per_op_points[kv.first] > 64)
                     R.vacuous_ops.push_back(kv.first);
             R.samples = samples;
+            for (auto& s : rejected_at_run_time)
+                R.rejected_at_run_time.push_back(s);
+            // a combination rejected at run time is not "saturated by violations"
+            R.saturated.erase(std::remove_if(R.saturated.begin(), R.saturated.end(), [&](const std::string& s)
+                                             { return rejected_at_run_time.count(s) != 0; }),
+                              R.saturated.end());
             return R;
         }
     };
